@@ -9,6 +9,9 @@
  * EXPECT-FAIL: TAB7 parse_number
  * EXPECT-FAIL: TAB21 parse_hex4
  * EXPECT-FAIL: TAB23 bad_TAB23_scan_single
+ * EXPECT-FAIL: OUT9 bad_OUT9_no_terminator
+ * EXPECT-FAIL: OUT9 bad_OUT9_counts_plain
+ * EXPECT-FAIL: OUT9 bad_OUT9_two_for_two
  * EXPECT-FAIL: TAB23 bad_TAB23_search_single
  * EXPECT-FAIL: TAB23 bad_TAB23_search_inverted
  * EXPECT-FAIL: C02S parse_array
@@ -240,6 +243,60 @@ static cJSON_bool bad_TAB23_search_inverted(cJSON * const item, parse_buffer * c
 cJSON_bool use_scans(cJSON *item, parse_buffer *b)
 {
     return bad_TAB23_scan_single(item, b) + good_scan_forward(item, b) + bad_TAB23_search_single(item, b) + good_search_parity(item, b) + bad_TAB23_search_inverted(item, b);
+}
+/* OUT9: the decoded string fits its block. One template, the defect selected per function. */
+#define DECODE_FN(NAME, SIZE_EXTRA, PLAIN_COUNT, ESCAPE_WRITE) \
+static cJSON_bool NAME(cJSON * const item, parse_buffer * const input_buffer) \
+{ \
+    const unsigned char *input_pointer = buffer_at_offset(input_buffer) + 1; \
+    const unsigned char *input_end = buffer_at_offset(input_buffer) + 1; \
+    unsigned char *output_pointer = NULL; \
+    unsigned char *output = NULL; \
+    size_t skipped = 0; \
+    while (((size_t)(input_end - input_buffer->content) < input_buffer->length) && (*input_end != '\"')) \
+    { \
+        if (input_end[0] == '\\') \
+        { \
+            if ((size_t)(input_end + 1 - input_buffer->content) >= input_buffer->length) { return false; } \
+            skipped++; \
+            input_end++; \
+        } \
+        PLAIN_COUNT \
+        input_end++; \
+    } \
+    if (((size_t)(input_end - input_buffer->content) >= input_buffer->length) || (*input_end != '\"')) { return false; } \
+    output = (unsigned char*)input_buffer->hooks.allocate((size_t)(input_end - input_pointer) - skipped SIZE_EXTRA); \
+    if (output == NULL) { return false; } \
+    output_pointer = output; \
+    while (input_pointer < input_end) \
+    { \
+        if (*input_pointer != '\\') { *output_pointer++ = *input_pointer++; } \
+        else \
+        { \
+            switch (input_pointer[1]) \
+            { \
+                case 'n': *output_pointer++ = '\n'; break; \
+                case '\\': case '\"': ESCAPE_WRITE *output_pointer++ = input_pointer[1]; break; \
+                default: goto fail; \
+            } \
+            input_pointer += 2; \
+        } \
+    } \
+    *output_pointer = '\0'; \
+    item->valuestring = (char*)output; \
+    return true; \
+fail: \
+    input_buffer->hooks.deallocate(output); \
+    return false; \
+}
+#define NOTHING
+DECODE_FN(good_decode_fits, + 1, NOTHING, NOTHING)
+DECODE_FN(bad_OUT9_no_terminator, NOTHING, NOTHING, NOTHING)
+DECODE_FN(bad_OUT9_counts_plain, + 1, skipped++;, NOTHING)
+DECODE_FN(bad_OUT9_two_for_two, + 1, NOTHING, *output_pointer++ = '\\';)
+cJSON_bool use_decoders(cJSON *item, parse_buffer *b)
+{
+    return good_decode_fits(item, b) + bad_OUT9_no_terminator(item, b) + bad_OUT9_counts_plain(item, b) + bad_OUT9_two_for_two(item, b);
 }
 /* C02S: new element linked in front; C03S: closer not demanded */
 static cJSON_bool parse_array(cJSON * const item, parse_buffer * const input_buffer)
